@@ -191,7 +191,96 @@ def build_policy(cls: dict, env, key_int: int):
     return MLPSACPolicy(env, feature_size=8, width_size=8, depth=1, key=jr.key(key_int))
 
 
+def config_digest(obj, depth: int = 0):
+    """Canonical, hashable description of everything an environment object is configured with: array leaves by content,
+    static fields (dicts, tuples, numbers, strings, nested modules) by value.  Opaque foreign objects by type name only."""
+    import dataclasses
+
+    if depth > 6:
+        return "..."
+    if isinstance(obj, (jax.Array, np.ndarray, np.generic)):
+        a = np.asarray(obj)
+        return ("arr", str(a.dtype), tuple(a.shape), hashlib.sha256(a.tobytes()).hexdigest()[:16])
+    if isinstance(obj, (bool, int, float, str, type(None))):
+        return obj
+    if isinstance(obj, dict):
+        return ("dict", tuple((str(k), config_digest(v, depth + 1)) for k, v in sorted(obj.items(), key=lambda kv: str(kv[0]))))
+    if isinstance(obj, (list, tuple)):
+        return (type(obj).__name__, tuple(config_digest(v, depth + 1) for v in obj))
+    if dataclasses.is_dataclass(obj) and not isinstance(obj, type):
+        out = []
+        for f in dataclasses.fields(obj):
+            try:
+                out.append((f.name, config_digest(getattr(obj, f.name), depth + 1)))
+            except Exception:  # noqa: BLE001
+                out.append((f.name, "<unreadable>"))
+        return (type(obj).__name__, tuple(out))
+    return ("opaque", type(obj).__name__)
+
+
+class CtorPurityRunner:
+    """Building ANOTHER environment object must not change one that already exists, nor what a default construction gives
+    (training is a function of the environment passed in — not of what else was constructed in the process before)."""
+
+    def __init__(self, cls: dict):
+        self.cls = cls
+
+    def gen(self, rng, prop: str) -> dict:
+        return {"scenario": NAME, "cls": self.cls, "faults": [], "ops": [{"op": "ctor_purity", "env": rng.choice(self.cls["envs"]), "pick": rng.getrandbits(16)}]}
+
+    def shrink_candidates(self, plan: dict):
+        return iter(())
+
+    def execute(self, plan: dict, props: set | None = None) -> RunResult:
+        import importlib
+        import inspect
+
+        from .rollout import ENVS
+
+        res = RunResult(Trace())
+        for op in plan["ops"]:
+            mod, name = ENVS[op["env"]]
+            ctor = getattr(importlib.import_module(mod), name)
+            first = ctor()
+            d0 = config_digest(first)
+            # non-default arguments, derived from the signature: every option whose default is None and which the built object
+            # holds as a dict / tuple / array under the same name gets a modified COPY of that value
+            overrides = {}
+            for pname, par in inspect.signature(ctor.__init__).parameters.items():
+                if pname == "self" or par.default is not None or not hasattr(first, pname):
+                    continue
+                cur = getattr(first, pname)
+                if isinstance(cur, dict) and cur:
+                    k = sorted(cur, key=str)[op["pick"] % len(cur)]
+                    v = cur[k]
+                    overrides[pname] = {k: (0.0 if isinstance(v, (int, float)) and v != 0.0 else 1.5)}
+            try:
+                other = ctor(**overrides)
+            except Exception as exc:  # noqa: BLE001
+                res.probes["override_construction_failed"] += 1
+                res.trace.ev("ctor_purity", env=op["env"], overrides=sorted(overrides), failed=type(exc).__name__)
+                continue
+            again = ctor()
+            res.trace.ev("ctor_purity", env=op["env"], overrides=sorted(overrides))
+            res.steps += 3
+            if overrides:
+                res.faults["F.other_object_built_with_overrides"] += 1
+            del other
+            if config_digest(first) != d0:
+                res.fail("C11", "environment_is_its_own", "existing_environment_changed_by_building_another_one", env=op["env"], overrides=sorted(overrides))
+            elif config_digest(again) != d0:
+                res.fail("C11", "environment_is_its_own", "default_construction_depends_on_what_was_built_before", env=op["env"], overrides=sorted(overrides))
+            else:
+                res.ok("C11", "environment_is_its_own")
+        return res
+
+
 class Runner:
+    def __new__(cls_, cls: dict):
+        if cls.get("mode") == "ctor_purity":
+            return CtorPurityRunner(cls)
+        return super().__new__(cls_)
+
     def __init__(self, cls: dict):
         self.cls = cls
         self.algo = build_algo(cls)
